@@ -82,10 +82,7 @@ Record inv (s : st) : Prop := {
   J5b : forall i j id, r s = RCopied i j id \/ r s = ROpnSent i j -> (active s < j)%nat /\ (j < ninst s)%nat;
   J5c : forall i j, r s = RInstalled i j -> active s = j;
   J6 : consecutive_rev (wire_rev s) = true;
-  J6h : forall c rest, wire_rev s = c :: rest -> c_seq c = iseq s (live s);
-  J7 : contiguous_rev (wire_rev s) = true;
-  J7h : forall c rest, wire_rev s = c :: rest -> c_final c = false ->
-        exists t n id k, c_owner c = OwnS t /\ c_req c = id /\ nth_error (ss s) t = Some (SWriting n (active s) id k)
+  J6h : forall c rest, wire_rev s = c :: rest -> c_seq c = iseq s (live s)
 }.
 
 Lemma nth_nil : forall A t (x : A), nth_error (@nil A) t = Some x -> False.
@@ -102,8 +99,6 @@ Proof.
   - discriminate.
   - lia.
   - intros i j id [H|H]; discriminate.
-  - discriminate.
-  - reflexivity.
   - discriminate.
   - reflexivity.
   - discriminate.
@@ -135,11 +130,6 @@ Lemma consec_cons : forall c p rest,
   consecutive_rev (c :: p :: rest) = (c_seq c =? go_nextSequenceNumber (c_seq p)) && consecutive_rev (p :: rest).
 Proof. reflexivity. Qed.
 
-Lemma contig_cons : forall c p rest,
-  contiguous_rev (c :: p :: rest) =
-  (c_final p || (owner_eqb (c_owner c) (c_owner p) && (c_req c =? c_req p))) && contiguous_rev (p :: rest).
-Proof. reflexivity. Qed.
-
 Ltac fin5b := solve [intros ? ? ? [?H|?H]; inversion H; subst; try lia; try discriminate].
 Ltac finJ5 := solve [intros ? ?H; inversion H; reflexivity].
 
@@ -161,10 +151,6 @@ Proof.
     + exact (J5c _ I).
     + exact (J6 _ I).
     + exact (J6h _ I).
-    + exact (J7 _ I).
-    + intros c rest Hw Hf. destruct (J7h _ I _ _ Hw Hf) as (t & n0 & id & k & A & B & C).
-      exists t, n0, id, k. repeat split; try assumption.
-      rewrite nth_error_app1; [exact C|]. apply nth_error_Some. congruence.
   - (* EGate *)
     unfold sstep in St. destruct (nth_error (ss s) t) as [pc|] eqn:Ht; try discriminate.
     destruct pc; try discriminate. destruct (gate s) eqn:G; try discriminate. inversion St; subst; clear St.
@@ -182,10 +168,6 @@ Proof.
     + exact (J5c _ I).
     + exact (J6 _ I).
     + exact (J6h _ I).
-    + exact (J7 _ I).
-    + intros c rest Hw Hf. destruct (J7h _ I _ _ Hw Hf) as (t0 & n0 & id & k & A & B & C).
-      exists t0, n0, id, k. repeat split; try assumption.
-      destruct (Nat.eq_dec t0 t) as [->|NE]; [congruence|rewrite nth_upd_other by assumption; exact C].
   - (* EActive *)
     unfold sstep in St. destruct (nth_error (ss s) t) as [pc|] eqn:Ht; try discriminate.
     destruct pc; try discriminate. inversion St; subst; clear St.
@@ -202,10 +184,6 @@ Proof.
     + exact (J5c _ I).
     + exact (J6 _ I).
     + exact (J6h _ I).
-    + exact (J7 _ I).
-    + intros c rest Hw Hf. destruct (J7h _ I _ _ Hw Hf) as (t0 & n0 & id & k & A & B & C).
-      exists t0, n0, id, k. repeat split; try assumption.
-      destruct (Nat.eq_dec t0 t) as [->|NE]; [congruence|rewrite nth_upd_other by assumption; exact C].
   - (* EId *)
     unfold sstep in St. destruct (nth_error (ss s) t) as [pc|] eqn:Ht; try discriminate.
     destruct pc; try discriminate. inversion St; subst; clear St.
@@ -222,10 +200,6 @@ Proof.
     + exact (J5c _ I).
     + exact (J6 _ I).
     + exact (J6h _ I).
-    + exact (J7 _ I).
-    + intros c rest Hw Hf. destruct (J7h _ I _ _ Hw Hf) as (t0 & n0 & id & k & A & B & C).
-      exists t0, n0, id, k. repeat split; try assumption.
-      destruct (Nat.eq_dec t0 t) as [->|NE]; [congruence|rewrite nth_upd_other by assumption; exact C].
   - (* ELockI *)
     unfold sstep in St. destruct (nth_error (ss s) t) as [pc|] eqn:Ht; try discriminate.
     destruct pc; try discriminate. destruct (ilock s i) eqn:L; try discriminate. inversion St; subst; clear St.
@@ -244,10 +218,6 @@ Proof.
     + exact (J5c _ I).
     + exact (J6 _ I).
     + exact (J6h _ I).
-    + exact (J7 _ I).
-    + intros c rest Hw Hf. destruct (J7h _ I _ _ Hw Hf) as (t0 & n0 & id0 & k & A & B & C).
-      exists t0, n0, id0, k. repeat split; try assumption.
-      destruct (Nat.eq_dec t0 t) as [->|NE]; [congruence|rewrite nth_upd_other by assumption; exact C].
   - (* EChunk *)
     unfold sstep in St. destruct (nth_error (ss s) t) as [pc|] eqn:Ht; try discriminate.
     destruct pc; try discriminate. inversion St; subst; clear St.
@@ -273,15 +243,41 @@ Proof.
       rewrite consec_cons. cbn [c_seq]. rewrite (J6h _ I _ _ W), LA, Z.eqb_refl. pose proof (J6 _ I) as X. rewrite W in X. exact X.
     + intros c rest Hw. inversion Hw; subst; clear Hw. cbn.
       unfold live. cbn. fold (live s). rewrite LA. unfold updI. rewrite Nat.eqb_refl. reflexivity.
-    + destruct (wire_rev s) as [|p rest] eqn:W; [reflexivity|].
-      rewrite contig_cons. cbn [c_owner c_req]. pose proof (J7 _ I) as X. rewrite W in X. rewrite X, andb_true_r.
-      destruct (c_final p) eqn:Fp; [reflexivity|]. cbn [orb].
-      destruct (J7h _ I _ _ W Fp) as (t0 & n0 & id0 & k0 & A & B & C).
-      pose proof (J4 _ I _ _ _ C eq_refl) as Lk0. rewrite Lk in Lk0. inversion Lk0; subst t0.
-      rewrite Ht in C. inversion C; subst. rewrite A. cbn [owner_eqb]. rewrite Nat.eqb_refl, Z.eqb_refl. reflexivity.
-    + intros c rest Hw Hf. inversion Hw; subst; clear Hw. cbn in Hf.
-      exists t, n, id, (S k). repeat split.
-      erewrite nth_upd_same by exact Ht. unfold pc'. rewrite Hf. reflexivity.
+  - (* EFail *)
+    unfold sstep in St. destruct (nth_error (ss s) t) as [pc|] eqn:Ht; try discriminate.
+    destruct pc; try discriminate. inversion St; subst; clear St.
+    assert (NM : mid (r s) = false) by (eapply not_mid_if_not_quiet; [exact I|exact Ht|reflexivity]).
+    assert (Ei : i = active s) by (eapply (J1 _ I); [exact Ht|reflexivity]). subst i.
+    pose proof (live_active _ NM) as LA.
+    pose proof (J4 _ I _ _ _ Ht eq_refl) as Lk.
+    destruct k as [|k].
+    + (* before the first chunk: the number is used up (GAP entry) *)
+      constructor; cbn -[consecutive_rev].
+      * intros t' pc i0 H Hi. nth_cases H t' t; [cbn in Hi; congruence|eapply (J1 _ I); eassumption].
+      * intro M. congruence.
+      * exact (J2g _ I).
+      * pose proof (count_upd in_flight _ _ _ (SWritten (active s)) Ht) as C. cbn in C. rewrite (J3 _ I). lia.
+      * intros t' pc i0 H Hi. nth_cases H t' t; [cbn in Hi; inversion Hi; subst; exact Lk|eapply (J4 _ I); eassumption].
+      * exact (J5 _ I).
+      * exact (J5a _ I).
+      * exact (J5b _ I).
+      * exact (J5c _ I).
+      * destruct (wire_rev s) as [|p rest] eqn:W; [reflexivity|].
+        rewrite consec_cons. cbn [c_seq]. rewrite (J6h _ I _ _ W), LA, Z.eqb_refl. pose proof (J6 _ I) as X. rewrite W in X. exact X.
+      * intros c rest Hw. inversion Hw; subst; clear Hw. cbn.
+        unfold live. cbn. fold (live s). rewrite LA. unfold updI. rewrite Nat.eqb_refl. reflexivity.
+    + constructor; cbn.
+      * intros t' pc i0 H Hi. nth_cases H t' t; [cbn in Hi; congruence|eapply (J1 _ I); eassumption].
+      * intro M. congruence.
+      * exact (J2g _ I).
+      * pose proof (count_upd in_flight _ _ _ (SWritten (active s)) Ht) as C. cbn in C. rewrite (J3 _ I). lia.
+      * intros t' pc i0 H Hi. nth_cases H t' t; [cbn in Hi; inversion Hi; subst; exact Lk|eapply (J4 _ I); eassumption].
+      * exact (J5 _ I).
+      * exact (J5a _ I).
+      * exact (J5b _ I).
+      * exact (J5c _ I).
+      * exact (J6 _ I).
+      * exact (J6h _ I).
   - (* EUnlockI *)
     unfold sstep in St. destruct (nth_error (ss s) t) as [pc|] eqn:Ht; try discriminate.
     destruct pc; try discriminate. inversion St; subst; clear St.
@@ -300,10 +296,6 @@ Proof.
     + exact (J5c _ I).
     + exact (J6 _ I).
     + exact (J6h _ I).
-    + exact (J7 _ I).
-    + intros c rest Hw Hf. destruct (J7h _ I _ _ Hw Hf) as (t0 & n0 & id0 & k & A & B & C).
-      exists t0, n0, id0, k. repeat split; try assumption.
-      destruct (Nat.eq_dec t0 t) as [->|NE]; [congruence|rewrite nth_upd_other by assumption; exact C].
   - (* EDone *)
     unfold sstep in St. destruct (nth_error (ss s) t) as [pc|] eqn:Ht; try discriminate.
     destruct pc; try discriminate. inversion St; subst; clear St.
@@ -320,44 +312,40 @@ Proof.
     + exact (J5c _ I).
     + exact (J6 _ I).
     + exact (J6h _ I).
-    + exact (J7 _ I).
-    + intros c rest Hw Hf. destruct (J7h _ I _ _ Hw Hf) as (t0 & n0 & id0 & k & A & B & C).
-      exists t0, n0, id0, k. repeat split; try assumption.
-      destruct (Nat.eq_dec t0 t) as [->|NE]; [congruence|rewrite nth_upd_other by assumption; exact C].
   - (* ERenStart *)
     destruct (r s) eqn:R; try discriminate. inversion St; subst; clear St.
-    pose proof I as [A1 A2 A2g A3 A4 A5 A5a A5b A5c A6 A6h A7 A7h]. unfold live in A6h. rewrite R in *. cbn in *.
+    pose proof I as [A1 A2 A2g A3 A4 A5 A5a A5b A5c A6 A6h]. unfold live in A6h. rewrite R in *. cbn in *.
     constructor; cbn; auto; try discriminate; try congruence.
     all: try fin5b. all: try finJ5.
   - (* ERenGate *)
     destruct (r s) eqn:R; try discriminate. inversion St; subst; clear St.
-    pose proof I as [A1 A2 A2g A3 A4 A5 A5a A5b A5c A6 A6h A7 A7h]. unfold live in A6h. rewrite R in *. cbn in *.
+    pose proof I as [A1 A2 A2g A3 A4 A5 A5a A5b A5c A6 A6h]. unfold live in A6h. rewrite R in *. cbn in *.
     constructor; cbn; auto; try discriminate; try congruence.
     all: try fin5b. all: try finJ5.
   - (* ERenDrain *)
     destruct (r s) eqn:R; try discriminate. destruct (Nat.eqb_spec (pending s) 0) as [P0|]; try discriminate.
     inversion St; subst; clear St.
-    pose proof I as [A1 A2 A2g A3 A4 A5 A5a A5b A5c A6 A6h A7 A7h]. unfold live in A6h. rewrite R in *. cbn in *.
+    pose proof I as [A1 A2 A2g A3 A4 A5 A5a A5b A5c A6 A6h]. unfold live in A6h. rewrite R in *. cbn in *.
     constructor; cbn; auto; try discriminate; try congruence.
     all: try fin5b. all: try finJ5.
     + intros _ t pc H. apply partition_pc. eapply count_zero; [|exact H]. congruence.
   - (* ERenLock *)
     destruct (r s) eqn:R; try discriminate. destruct (ilock s i) eqn:L; try discriminate.
     inversion St; subst; clear St.
-    pose proof I as [A1 A2 A2g A3 A4 A5 A5a A5b A5c A6 A6h A7 A7h]. unfold live in A6h. rewrite R in *. cbn in *.
+    pose proof I as [A1 A2 A2g A3 A4 A5 A5a A5b A5c A6 A6h]. unfold live in A6h. rewrite R in *. cbn in *.
     constructor; cbn; auto; try discriminate; try congruence.
     all: try fin5b. all: try finJ5.
     + intros t pc i0 H Hi. pose proof (A2 eq_refl _ _ H) as Q. apply quiet_facts in Q. destruct Q as (_ & Q & _). congruence.
   - (* ERenCopy *)
     destruct (r s) eqn:R; try discriminate. inversion St; subst; clear St.
-    pose proof I as [A1 A2 A2g A3 A4 A5 A5a A5b A5c A6 A6h A7 A7h]. unfold live in A6h. rewrite R in *. cbn in *.
+    pose proof I as [A1 A2 A2g A3 A4 A5 A5a A5b A5c A6 A6h]. unfold live in A6h. rewrite R in *. cbn in *.
     pose proof (A5 _ eq_refl) as Ei. subst i.
     constructor; cbn; auto; try discriminate; try congruence.
     all: try fin5b. all: try finJ5.
     + intros c rest Hw. unfold updI. rewrite Nat.eqb_refl. exact (A6h _ _ Hw).
   - (* ERenOpn *)
     destruct (r s) eqn:R; try discriminate. inversion St; subst; clear St.
-    pose proof I as [A1 A2 A2g A3 A4 A5 A5a A5b A5c A6 A6h A7 A7h]. unfold live in A6h. rewrite R in *. cbn in *.
+    pose proof I as [A1 A2 A2g A3 A4 A5 A5a A5b A5c A6 A6h]. unfold live in A6h. rewrite R in *. cbn in *.
     pose proof (A5 _ eq_refl) as Ei. subst i.
     constructor; cbn -[consecutive_rev contiguous_rev]; auto; try discriminate; try congruence.
     all: try fin5b. all: try finJ5.
@@ -365,29 +353,22 @@ Proof.
     + destruct (wire_rev s) as [|p rest] eqn:W; [reflexivity|].
       rewrite consec_cons. cbn [c_seq]. rewrite (A6h _ _ eq_refl), Z.eqb_refl. exact A6.
     + intros c rest Hw. inversion Hw; subst; clear Hw. cbn. unfold updI. rewrite Nat.eqb_refl. reflexivity.
-    + destruct (wire_rev s) as [|p rest] eqn:W; [reflexivity|].
-      rewrite contig_cons. rewrite A7, andb_true_r. destruct (c_final p) eqn:Fp; [reflexivity|].
-      destruct (A7h _ _ eq_refl Fp) as (t0 & n0 & id0 & k0 & _ & _ & C).
-      pose proof (A2 eq_refl _ _ C) as Q. discriminate.
-    + intros c rest Hw Hf. inversion Hw; subst. discriminate.
   - (* ERenInstall *)
     destruct (r s) eqn:R; try discriminate. inversion St; subst; clear St.
-    pose proof I as [A1 A2 A2g A3 A4 A5 A5a A5b A5c A6 A6h A7 A7h]. unfold live in A6h. rewrite R in *. cbn in *.
+    pose proof I as [A1 A2 A2g A3 A4 A5 A5a A5b A5c A6 A6h]. unfold live in A6h. rewrite R in *. cbn in *.
     destruct (A5b i j 0 (or_intror eq_refl)) as [B1 B2].
     constructor; cbn; auto; try discriminate; try congruence.
     all: try fin5b. all: try finJ5.
     + intros t pc i0 H Hi. pose proof (A2 eq_refl _ _ H) as Q. apply quiet_facts in Q. destruct Q as (Q & _). congruence.
-    + intros c rest Hw Hf. destruct (A7h _ _ Hw Hf) as (t0 & n0 & id0 & k0 & _ & _ & C).
-      pose proof (A2 eq_refl _ _ C) as Q. discriminate.
   - (* ERenFail *)
     destruct (r s) eqn:R; try discriminate. inversion St; subst; clear St.
-    pose proof I as [A1 A2 A2g A3 A4 A5 A5a A5b A5c A6 A6h A7 A7h]. unfold live in A6h. rewrite R in *. cbn in *.
+    pose proof I as [A1 A2 A2g A3 A4 A5 A5a A5b A5c A6 A6h]. unfold live in A6h. rewrite R in *. cbn in *.
     pose proof (A5 _ eq_refl) as Ei. subst i.
     constructor; cbn; auto; try discriminate; try congruence.
     all: try fin5b. all: try finJ5.
     + intros c rest Hw. unfold updI. rewrite Nat.eqb_refl. exact (A6h _ _ Hw).
   - (* ERenUnlock *)
-    pose proof I as [A1 A2 A2g A3 A4 A5 A5a A5b A5c A6 A6h A7 A7h].
+    pose proof I as [A1 A2 A2g A3 A4 A5 A5a A5b A5c A6 A6h].
     destruct (r s) eqn:R; try discriminate; inversion St; subst; clear St.
     + unfold live in A6h. rewrite R in *. cbn in *. pose proof (A5c _ _ eq_refl) as Ej.
       constructor; cbn; auto; try discriminate; try congruence.
@@ -401,6 +382,13 @@ Proof.
       pose proof (A2 eq_refl _ _ H) as Q. apply quiet_facts in Q. destruct Q as (_ & Q & _). congruence.
 Qed.
 
+Ltac sender_case St :=
+  unfold sstep in St;
+  match type of St with context [nth_error ?l ?t] =>
+    let pc := fresh "pc" in
+    destruct (nth_error l t) as [pc|] eqn:Ht; [|discriminate]; destruct pc; try discriminate
+  end.
+
 Lemma runP_inv : forall P evs s s', inv s -> runP P evs s = Some s' -> inv s'.
 Proof.
   induction evs as [|e rest IH]; cbn; intros s s' I R.
@@ -412,10 +400,256 @@ Qed.
 Lemma reachableP_inv : forall P a b s, reachableP P a b s -> inv s.
 Proof. intros P a b s [evs R]. eapply runP_inv; [apply inv_init|exact R]. Qed.
 
-(* EVERY run: numbers are consecutive and messages are not interleaved *)
-Lemma wire_ok_full : forall a b s, reachable a b s ->
-  consecutive_rev (wire_rev s) = true /\ contiguous_rev (wire_rev s) = true.
-Proof. intros a b s R. pose proof (reachableP_inv _ _ _ _ R) as I. split; [exact (J6 _ I)|exact (J7 _ I)]. Qed.
+(* EVERY run: every entry of the send log (chunks and GAP entries) carries the successor of the one before it *)
+Lemma log_consecutive_full : forall a b s, reachable a b s -> consecutive_rev (wire_rev s) = true.
+Proof. intros a b s R. exact (J6 _ (reachableP_inv _ _ _ _ R)). Qed.
+
+(* ---------------------------------------------------------------- no GAP entries without an early failure *)
+
+Lemma step_visible : forall s e s', forallb visible (wire_rev s) = true -> no_early_fail s e = true ->
+  step s e = Some s' -> forallb visible (wire_rev s') = true.
+Proof.
+  intros s e s' F Ok St.
+  destruct e; cbn in St; try (unfold sstep in St; destruct (nth_error (ss s) t) as [pc|] eqn:Ht; [|discriminate]; destruct pc; try discriminate).
+  - inversion St; subst. exact F.
+  - destruct (gate s); try discriminate. inversion St; subst. exact F.
+  - inversion St; subst. exact F.
+  - inversion St; subst. exact F.
+  - destruct (ilock s i); try discriminate. inversion St; subst. exact F.
+  - inversion St; subst. cbn. rewrite F. reflexivity.
+  - cbn in Ok. rewrite Ht in Ok. destruct k; [cbn in Ok; discriminate|]. inversion St; subst. exact F.
+  - inversion St; subst. exact F.
+  - inversion St; subst. exact F.
+  - destruct (r s); try discriminate. inversion St; subst. exact F.
+  - destruct (r s); try discriminate. inversion St; subst. exact F.
+  - destruct (r s); try discriminate. destruct (Nat.eqb (pending s) 0); try discriminate. inversion St; subst. exact F.
+  - destruct (r s); try discriminate. destruct (ilock s i); try discriminate. inversion St; subst. exact F.
+  - destruct (r s); try discriminate. inversion St; subst. exact F.
+  - destruct (r s); try discriminate. inversion St; subst. cbn. rewrite F. reflexivity.
+  - destruct (r s); try discriminate. inversion St; subst. exact F.
+  - destruct (r s); try discriminate. inversion St; subst. exact F.
+  - destruct (r s); try discriminate; inversion St; subst; exact F.
+Qed.
+
+Lemma filter_all : forall A (f : A -> bool) l, forallb f l = true -> filter f l = l.
+Proof. induction l as [|x l IH]; cbn; intro H; [reflexivity|]. apply andb_true_iff in H. destruct H as [H1 H2]. rewrite H1, IH by exact H2. reflexivity. Qed.
+
+Lemma all_visible_no_early_fail : forall a b s, reachableP no_early_fail a b s -> wire_rev_visible s = wire_rev s.
+Proof.
+  intros a b s [evs R]. unfold wire_rev_visible. apply filter_all.
+  revert R. assert (F0 : forallb visible (wire_rev (init a b)) = true) by reflexivity. revert F0. generalize (init a b).
+  induction evs as [|e rest IH]; cbn; intros s0 F R.
+  - inversion R; subst; exact F.
+  - destruct (no_early_fail s0 e) eqn:Ok; try discriminate. destruct (step s0 e) eqn:E; try discriminate.
+    eapply IH; [eapply step_visible; eassumption|exact R].
+Qed.
+
+(* on the runs without an early failure the chunks on the connection carry consecutive numbers *)
+Lemma wire_consecutive_partial : forall a b s, reachableP no_early_fail a b s -> consecutive_rev (wire_rev_visible s) = true.
+Proof.
+  intros a b s R. rewrite (all_visible_no_early_fail _ _ _ R).
+  destruct R as [evs R]. exact (J6 _ (runP_inv _ _ _ _ (inv_init a b) R)).
+Qed.
+
+(* ---------------------------------------------------------------- messages are never interleaved (every run) *)
+
+Definition wrote (pc : spc) : bool :=
+  match pc with SWriting _ _ _ (S _) | SWritten _ | SUnlocked | SDone => true | _ => false end.
+
+Record inv3 (s : st) : Prop := {
+  K1 : contiguous_rev (wire_rev s) = true;
+  K2 : forall c t, In c (wire_rev s) -> c_owner c = OwnS t \/ c_owner c = OwnGap t ->
+       exists pc, nth_error (ss s) t = Some pc /\ wrote pc = true;
+  K3 : forall t n i id k, nth_error (ss s) t = Some (SWriting n i id (S k)) ->
+       exists c rest, wire_rev s = c :: rest /\ c_owner c = OwnS t;
+  K4 : forall c n, In c (wire_rev s) -> c_owner c = OwnR n -> (n < ropn s)%nat }.
+
+Lemma owner_eqb_eq : forall x y, owner_eqb x y = true <-> x = y.
+Proof.
+  intros [x|x|x] [y|y|y]; cbn; split; intro H; try discriminate; try (apply Nat.eqb_eq in H; congruence);
+    inversion H; subst; apply Nat.eqb_refl.
+Qed.
+
+Lemma fresh_owner : forall o w, (forall q, In q w -> c_owner q <> o) ->
+  existsb (fun q => owner_eqb (c_owner q) o) w = false.
+Proof.
+  intros o w H. destruct (existsb _ w) eqn:E; [|reflexivity].
+  apply existsb_exists in E. destruct E as (q & Hq & Eq). apply owner_eqb_eq in Eq. exfalso. eapply H; eassumption.
+Qed.
+
+Definition contig_head (c : chunk) (l : list chunk) : bool :=
+  match l with
+  | [] => true
+  | p :: _ => owner_eqb (c_owner c) (c_owner p) || negb (existsb (fun q => owner_eqb (c_owner q) (c_owner c)) l)
+  end.
+
+Lemma contig_unfold : forall c l, contiguous_rev (c :: l) = contig_head c l && contiguous_rev l.
+Proof. intros c [|p l]; reflexivity. Qed.
+
+Lemma inv3_init : forall a b, inv3 (init a b).
+Proof.
+  intros a b. constructor; cbn.
+  - reflexivity.
+  - intros c t [].
+  - intros t n i id k H. exfalso. eapply nth_nil; exact H.
+  - intros c n [].
+Qed.
+
+(* a sender step that writes nothing *)
+Lemma inv3_sender_frame : forall s s' t pc pc',
+  inv3 s -> nth_error (ss s) t = Some pc -> ss s' = upd_nth (ss s) t pc' -> wire_rev s' = wire_rev s -> ropn s' = ropn s ->
+  (wrote pc = true -> wrote pc' = true) -> (forall n i id k, pc' <> SWriting n i id (S k)) -> inv3 s'.
+Proof.
+  intros s s' t pc pc' K Ht Hs Hw Hr Wr Nw. constructor; rewrite ?Hw, ?Hs, ?Hr.
+  - exact (K1 _ K).
+  - intros c t0 Hc Ho. destruct (K2 _ K c t0 Hc Ho) as (pc0 & H0 & W0).
+    destruct (Nat.eq_dec t0 t) as [->|NE].
+    + exists pc'. split; [eapply nth_upd_same; exact Ht|]. apply Wr. congruence.
+    + exists pc0. split; [rewrite nth_upd_other by exact NE; exact H0|exact W0].
+  - intros t0 n i id k H. destruct (Nat.eq_dec t0 t) as [->|NE].
+    + erewrite nth_upd_same in H by exact Ht. inversion H. exfalso. eapply Nw. eassumption.
+    + rewrite nth_upd_other in H by exact NE. exact (K3 _ K _ _ _ _ _ H).
+  - exact (K4 _ K).
+Qed.
+
+(* sender t, holding the lock of the active instance with k entries written, appends one entry owned by it *)
+Lemma inv3_emit : forall s t n id k final o pc',
+  inv s -> inv3 s -> nth_error (ss s) t = Some (SWriting n (active s) id k) ->
+  (o = OwnS t /\ (final = false -> pc' = SWriting n (active s) id (S k)) /\ wrote pc' = true \/
+   o = OwnGap t /\ k = 0%nat /\ pc' = SWritten (active s)) ->
+  (forall n' i' id' k', pc' = SWriting n' i' id' (S k') -> final = false) ->
+  inv3 (set_ss (emit s (active s) id final false o) (upd_nth (ss s) t pc')).
+Proof.
+  intros s t n id k final o pc' I K Ht Ho Hf.
+  assert (Wp : wrote pc' = true) by (destruct Ho as [(_ & _ & W)|(_ & _ & ->)]; [exact W|reflexivity]).
+  assert (Ot : o = OwnS t \/ o = OwnGap t) by (destruct Ho as [(E & _)|(E & _)]; auto).
+  pose proof (J4 _ I _ _ _ Ht eq_refl) as Lk.
+  constructor; cbn -[contiguous_rev].
+  - rewrite contig_unfold. rewrite (K1 _ K), andb_true_r. unfold contig_head.
+    destruct (wire_rev s) as [|p rest] eqn:W; [reflexivity|]. cbn [c_owner].
+    destruct k as [|k'].
+    + (* nothing written by t so far: the owner is fresh *)
+      rewrite fresh_owner; [apply orb_true_r|].
+      intros q Hq Eq. rewrite <- W in Hq.
+      assert (Oq : c_owner q = OwnS t \/ c_owner q = OwnGap t) by (rewrite Eq; exact Ot).
+      destruct (K2 _ K q t Hq Oq) as (pc0 & H0 & W0). rewrite Ht in H0. inversion H0; subst. discriminate.
+    + (* t continues its own message *)
+      destruct Ho as [(-> & _)|(_ & E & _)]; [|discriminate].
+      destruct (K3 _ K _ _ _ _ _ Ht) as (c0 & r0 & E0 & O0). rewrite W in E0. inversion E0; subst.
+      rewrite O0. cbn. rewrite Nat.eqb_refl. reflexivity.
+  - intros c t0 [Hc|Hc] Hown.
+    + subst c. cbn in Hown. assert (t0 = t) by (destruct Ot as [->| ->]; destruct Hown as [X|X]; inversion X; reflexivity). subst t0.
+      exists pc'. split; [eapply nth_upd_same; exact Ht|exact Wp].
+    + destruct (K2 _ K c t0 Hc Hown) as (pc0 & H0 & W0). destruct (Nat.eq_dec t0 t) as [->|NE].
+      * exists pc'. split; [eapply nth_upd_same; exact Ht|exact Wp].
+      * exists pc0. split; [rewrite nth_upd_other by exact NE; exact H0|exact W0].
+  - intros t0 n0 i0 id0 k0 H. destruct (Nat.eq_dec t0 t) as [->|NE].
+    + erewrite nth_upd_same in H by exact Ht. inversion H as [E]. eexists. eexists. split; [reflexivity|]. cbn.
+      destruct Ho as [(-> & _)|(_ & _ & ->)]; [reflexivity|discriminate].
+    + rewrite nth_upd_other in H by exact NE. exfalso.
+      assert (Ei : i0 = active s) by (eapply (J1 _ I); [exact H|reflexivity]). subst i0.
+      pose proof (J4 _ I _ _ _ H eq_refl) as Lk0. rewrite Lk in Lk0. inversion Lk0. congruence.
+  - intros c n0 [Hc|Hc] Hown.
+    + subst c. cbn in Hown. destruct Ot as [->| ->]; discriminate.
+    + exact (K4 _ K c n0 Hc Hown).
+Qed.
+
+Lemma step_inv3 : forall s e s', inv s -> inv3 s -> step s e = Some s' -> inv3 s'.
+Proof.
+  intros s e s' I K St.
+  destruct e; cbn in St.
+  - (* ESpawn *)
+    inversion St; subst; clear St. constructor; cbn.
+    + exact (K1 _ K).
+    + intros c t Hc Ho. destruct (K2 _ K c t Hc Ho) as (pc & H & W). exists pc. split; [|exact W].
+      rewrite nth_error_app1; [exact H|]. apply nth_error_Some. congruence.
+    + intros t n0 i id k H. apply nth_app_cases in H. destruct H as [H|H]; [exact (K3 _ K _ _ _ _ _ H)|discriminate].
+    + exact (K4 _ K).
+  - sender_case St. destruct (gate s); try discriminate. inversion St; subst; clear St.
+    eapply (inv3_sender_frame s); try eassumption; try reflexivity; try (intros; discriminate).
+  - sender_case St. inversion St; subst; clear St.
+    eapply (inv3_sender_frame s); try eassumption; try reflexivity; try (intros; discriminate).
+  - sender_case St. inversion St; subst; clear St.
+    eapply (inv3_sender_frame s); try eassumption; try reflexivity; try (intros; discriminate).
+  - sender_case St. destruct (ilock s i); try discriminate. inversion St; subst; clear St.
+    eapply (inv3_sender_frame s); try eassumption; try reflexivity; try (intros; discriminate).
+  - (* EChunk *)
+    sender_case St. inversion St; subst; clear St.
+    assert (Ei : i = active s) by (eapply (J1 _ I); [exact Ht|reflexivity]). subst i.
+    eapply inv3_emit; try eassumption.
+    + left. split; [reflexivity|]. split; [intro E; rewrite E; reflexivity|]. destruct (Nat.eqb k n); reflexivity.
+    + intros n' i' id' k' E. destruct (Nat.eqb k n); [discriminate|reflexivity].
+  - (* EFail *)
+    sender_case St. destruct k as [|k]; inversion St; subst; clear St.
+    + assert (Ei : i = active s) by (eapply (J1 _ I); [exact Ht|reflexivity]). subst i.
+      eapply inv3_emit; try eassumption.
+      * right. repeat split; reflexivity.
+      * intros; discriminate.
+    + eapply (inv3_sender_frame s); try eassumption; try reflexivity; try (intros _; reflexivity); try (intros; discriminate).
+  - sender_case St. inversion St; subst; clear St.
+    eapply (inv3_sender_frame s); try eassumption; try reflexivity; try (intros _; reflexivity); try (intros; discriminate).
+  - sender_case St. inversion St; subst; clear St.
+    eapply (inv3_sender_frame s); try eassumption; try reflexivity; try (intros _; reflexivity); try (intros; discriminate).
+  - destruct (r s); try discriminate. inversion St; subst. destruct K; constructor; assumption.
+  - destruct (r s); try discriminate. inversion St; subst. destruct K; constructor; assumption.
+  - destruct (r s); try discriminate. destruct (Nat.eqb (pending s) 0); try discriminate. inversion St; subst. destruct K; constructor; assumption.
+  - destruct (r s); try discriminate. destruct (ilock s i); try discriminate. inversion St; subst. destruct K; constructor; assumption.
+  - destruct (r s); try discriminate. inversion St; subst. destruct K; constructor; assumption.
+  - (* ERenOpn *)
+    destruct (r s) eqn:R; try discriminate. inversion St; subst; clear St.
+    assert (M : mid (r s) = true) by (rewrite R; reflexivity).
+    constructor; cbn -[contiguous_rev].
+    + rewrite contig_unfold. rewrite (K1 _ K), andb_true_r. unfold contig_head.
+      destruct (wire_rev s) as [|p rest] eqn:W; [reflexivity|]. cbn [c_owner].
+      rewrite fresh_owner; [apply orb_true_r|]. intros q Hq Eq. rewrite <- W in Hq.
+      pose proof (K4 _ K q _ Hq Eq). lia.
+    + intros c t [Hc|Hc] Ho; [subst c; cbn in Ho; destruct Ho; discriminate|exact (K2 _ K c t Hc Ho)].
+    + intros t n i0 id0 k H. pose proof (J2 _ I M _ _ H). discriminate.
+    + intros c n [Hc|Hc] Ho; [subst c; cbn in Ho; inversion Ho; lia|pose proof (K4 _ K c n Hc Ho); lia].
+  - destruct (r s); try discriminate. inversion St; subst. destruct K; constructor; assumption.
+  - destruct (r s); try discriminate. inversion St; subst. destruct K; constructor; assumption.
+  - destruct (r s); try discriminate; inversion St; subst; destruct K; constructor; assumption.
+Qed.
+
+Lemma reachable_inv3 : forall P a b s, reachableP P a b s -> inv3 s.
+Proof.
+  intros P a b s [evs R].
+  assert (G : forall evs s0 s1, inv s0 -> inv3 s0 -> runP P evs s0 = Some s1 -> inv3 s1).
+  { induction evs0 as [|e rest IH]; cbn; intros s0 s1 I K R0.
+    - inversion R0; subst; exact K.
+    - destruct (P s0 e); try discriminate. destruct (step s0 e) eqn:E; try discriminate.
+      eapply IH; [eapply step_inv; eassumption|eapply step_inv3; eassumption|exact R0]. }
+  exact (G evs _ _ (inv_init a b) (inv3_init a b) R).
+Qed.
+
+(* the property survives dropping the GAP entries: what is on the connection is never interleaved either *)
+Lemma existsb_filter_sub : forall (f g : chunk -> bool) l, existsb f (filter g l) = true -> existsb f l = true.
+Proof.
+  induction l as [|x l IH]; cbn; intro H; [exact H|]. destruct (g x); cbn in H.
+  - apply orb_true_iff in H. destruct H as [H|H]; [rewrite H; reflexivity|rewrite (IH H); apply orb_true_r].
+  - rewrite (IH H). apply orb_true_r.
+Qed.
+
+Lemma contig_filter : forall w, contiguous_rev w = true -> contiguous_rev (filter visible w) = true.
+Proof.
+  induction w as [|c w IH]; [reflexivity|]. intro H. rewrite contig_unfold in H. apply andb_true_iff in H. destruct H as [H1 H2].
+  cbn [filter]. destruct (visible c) eqn:V; [|exact (IH H2)].
+  rewrite contig_unfold, (IH H2), andb_true_r. unfold contig_head in *.
+  destruct w as [|p w']; [reflexivity|].
+  destruct (filter visible (p :: w')) as [|p' f'] eqn:F; [reflexivity|].
+  apply orb_true_iff in H1. destruct H1 as [H1|H1].
+  - (* same message as p: p is a real chunk too, so it is still the predecessor *)
+    apply owner_eqb_eq in H1. assert (Vp : visible p = true) by (unfold visible in *; rewrite <- H1; exact V).
+    cbn [filter] in F. rewrite Vp in F. inversion F; subst. rewrite H1. 
+    assert (E : owner_eqb (c_owner p') (c_owner p') = true) by (apply owner_eqb_eq; reflexivity). rewrite E. reflexivity.
+  - apply negb_true_iff in H1. rewrite <- F.
+    destruct (existsb (fun q => owner_eqb (c_owner q) (c_owner c)) (filter visible (p :: w'))) eqn:E.
+    + apply existsb_filter_sub in E. congruence.
+    + apply orb_true_r.
+Qed.
+
+Lemma wire_contiguous_full : forall a b s, reachable a b s -> contiguous_rev (wire_rev_visible s) = true.
+Proof. intros a b s R. apply contig_filter. exact (K1 _ (reachable_inv3 _ _ _ _ R)). Qed.
 
 (* the sequence counter step: +1, wrapping to 1 above 2^32 - 1024 (Part 6, 6.7.2.4).
    (x = 2^32 - 1 itself is not a value the counter can take: every step yields at most 2^32 - 1024.) *)
@@ -429,13 +663,6 @@ Qed.
 
 (* ---------------------------------------------------------------- C16: no chunk under a superseded token *)
 
-Ltac sender_case St :=
-  unfold sstep in St;
-  match type of St with context [nth_error ?l ?t] =>
-    let pc := fresh "pc" in
-    destruct (nth_error l t) as [pc|] eqn:Ht; [|discriminate]; destruct pc; try discriminate
-  end.
-
 (* every chunk of every run is secured by the instance that was installed when it was written, or a newer one *)
 Lemma step_not_superseded : forall s e s', inv s -> forallb not_superseded (wire_rev s) = true ->
   step s e = Some s' -> forallb not_superseded (wire_rev s') = true.
@@ -448,6 +675,9 @@ Proof.
   - sender_case St. inversion St; subst. exact F.
   - sender_case St. destruct (ilock s i); try discriminate. inversion St; subst. exact F.
   - sender_case St. inversion St; subst; clear St.
+    assert (Ei : i = active s) by (eapply (J1 _ I); [exact Ht|reflexivity]). subst i.
+    cbn. rewrite F. unfold not_superseded. cbn. rewrite Nat.leb_refl. reflexivity.
+  - sender_case St. inversion St; subst; clear St. destruct k; [|exact F].
     assert (Ei : i = active s) by (eapply (J1 _ I); [exact Ht|reflexivity]). subst i.
     cbn. rewrite F. unfold not_superseded. cbn. rewrite Nat.leb_refl. reflexivity.
   - sender_case St. inversion St; subst. exact F.
@@ -505,6 +735,17 @@ Proof.
     assert (Ei : i = active s) by (eapply (J1 _ I); [exact Ht|reflexivity]). subst i.
     pose proof (live_active _ NM) as LA. destruct I2 as [A B].
     assert (L' : forall pc', live (set_ss (emit s (active s) id (Nat.eqb k n) false (OwnS t)) pc') = active s)
+      by (intro; unfold live; cbn; fold (live s); exact LA).
+    split.
+    + cbn -[tokens_monotone_rev]. destruct (wire_rev s) as [|p rest] eqn:W; [reflexivity|].
+      rewrite mono_cons. cbn [c_inst]. rewrite A, andb_true_r. apply Nat.leb_le. rewrite <- LA. eapply B; reflexivity.
+    + intros c rest H. cbn in H. inversion H; subst. cbn [c_inst]. rewrite L'. apply Nat.le_refl.
+  - (* EFail *)
+    sender_case St. inversion St; subst; clear St. destruct k as [|k]; [|apply (inv2_frame s); [reflexivity|reflexivity|exact I2]].
+    assert (NM : mid (r s) = false) by (eapply not_mid_if_not_quiet; [exact I|exact Ht|reflexivity]).
+    assert (Ei : i = active s) by (eapply (J1 _ I); [exact Ht|reflexivity]). subst i.
+    pose proof (live_active _ NM) as LA. destruct I2 as [A B].
+    assert (L' : forall pc', live (set_ss (emit s (active s) id true false (OwnGap t)) pc') = active s)
       by (intro; unfold live; cbn; fold (live s); exact LA).
     split.
     + cbn -[tokens_monotone_rev]. destruct (wire_rev s) as [|p rest] eqn:W; [reflexivity|].
